@@ -410,7 +410,11 @@ func (e *Exec) atLoopHead(s *State, b *ssa.BasicBlock, lr loopRef, depth int) {
 	}
 	spec := e.con.Loops[lr.idx]
 	if spec == nil {
-		e.abort("loop %d of %s has no invariant", lr.idx, e.fn)
+		// a loop the contract says nothing about (e.g. added by a change): cut with the invariant `true` - everything the
+		// body may write is unknown afterwards. Sound; clauses that depend on what the loop computes then FAIL by name
+		// instead of the whole function being reported as undecidable.
+		e.note("loop-without-invariant", fmt.Sprintf("loop %d of %s: cut with invariant true", lr.idx, e.fn))
+		spec = &LoopSpec{}
 	}
 	e.curPos = b.Instrs[0].Pos()
 	lc := e.loopContext(s, b)
@@ -419,6 +423,13 @@ func (e *Exec) atLoopHead(s *State, b *ssa.BasicBlock, lr loopRef, depth int) {
 		env := e.invEnv(s, lc)
 		for _, inv := range spec.Invs {
 			e.prove(fmt.Sprintf("loop%d/invariant-preserved", lr.idx), fmt.Sprint(inv.Ord), append(append([]string{}, e.con.Tags...), inv.Tags...), s, inv.Expr, env, "loop "+fmt.Sprint(lr.idx)+" invariant "+inv.Src)
+		}
+		if hs := e.headState[b]; hs != nil {
+			senv := e.invEnv(s, lc)
+			senv.head = hs
+			for _, st := range spec.Steps {
+				e.prove(fmt.Sprintf("loop%d/step", lr.idx), fmt.Sprint(st.Ord), append(append([]string{}, e.con.Tags...), st.Tags...), s, st.Expr, senv, "loop "+fmt.Sprint(lr.idx)+" step "+st.Src)
+			}
 		}
 		e.loopFrameCheck(s, b, lr.idx, "preserved")
 		e.preservesGoals(s, lr.idx, spec, func(fam, g string) {
@@ -441,6 +452,22 @@ func (e *Exec) atLoopHead(s *State, b *ssa.BasicBlock, lr loopRef, depth int) {
 	}
 	// havoc
 	h := s.clone()
+	// the call log: the iterations not on this path made an unknown number of calls to the callees named in the body
+	var lnames []string
+	for _, lb := range loopBlocks(b) {
+		for _, ins := range lb.Instrs {
+			if ci, ok := ins.(ssa.CallInstruction); ok {
+				if nm := callLogName(ci.Common()); nm != "" {
+					lnames = append(lnames, nm)
+				}
+			}
+		}
+	}
+	h.cutLoops = append(h.cutLoops, cutLoop{Head: b, Pos: len(h.calls), Names: lnames})
+	if h.iterMark == nil {
+		h.iterMark = map[*ssa.BasicBlock]int{}
+	}
+	h.iterMark[b] = len(h.calls)
 	ef := e.loopEffectsOf(b)
 	e.loopFrameCheck(s, b, lr.idx, "entry")
 	entryAlloc := e.cur(h, "$alloc", []string{"Ref"}, "Bool")
@@ -462,7 +489,7 @@ func (e *Exec) atLoopHead(s *State, b *ssa.BasicBlock, lr loopRef, depth int) {
 	e.loopFrameAssume(h, ef)
 	e.preservesGoals(h, lr.idx, spec, func(fam, g string) { h.assume("%s", g) })
 	for _, a := range sortedAllocs(h.cells) {
-		if ef.cells[a] || ef.all && a.Heap {
+		if ef.cells[a] || ef.all && a.Heap && cellReachableByUnknownCode(a) {
 			h.cells[a] = e.symbolic(h, a.Type().(*types.Pointer).Elem(), "hv_"+a.Comment)
 		}
 	}
@@ -488,6 +515,10 @@ func (e *Exec) atLoopHead(s *State, b *ssa.BasicBlock, lr loopRef, depth int) {
 		e.decAtHead[b] = bterm(henv.eval(spec.Decreases))
 	}
 	h.trace = append(h.trace, fmt.Sprintf("loop%d:head", lr.idx))
+	if e.headState == nil {
+		e.headState = map[*ssa.BasicBlock]*State{}
+	}
+	e.headState[b] = h.clone()
 	e.inLoopBody[b] = true
 	savedLoop := e.curLoop
 	e.curLoop = lc
@@ -797,13 +828,20 @@ func (w *World) verifyFunc(con *Contract) (fr *FuncResult) {
 	}
 	e.registerLoops(f)
 	nLoops := len(loopHeaders(f))
+	var missingLoops []int
 	for k := range con.Loops {
 		if k >= nLoops {
-			e.abort("contract mentions loop %d but %s has %d loops", k, f, nLoops)
+			missingLoops = append(missingLoops, k)
 		}
 	}
+	sort.Ints(missingLoops)
 	e.axioms()
 	s := newState()
+	// a loop the contract speaks about no longer exists (the code was restructured): its clauses are reported as ONE failed
+	// obligation per loop, and the rest of the function is still verified against the remaining clauses
+	for _, k := range missingLoops {
+		e.obligeK(fmt.Sprintf("loop%d/missing", k), "", e.con.Tags, s, "false", fmt.Sprintf("the contract has clauses for loop %d but %s has %d loops", k, shortFunc(f.String()), nLoops))
+	}
 	e.entryVars = map[string]TV{}
 	for i, p := range f.Params {
 		v := e.symbolic(s, p.Type(), p.Name())
@@ -1062,4 +1100,63 @@ func (e *Exec) rangeIndexFact(h *State, b *ssa.BasicBlock) {
 			}
 		}
 	}
+}
+
+// A heap-allocated local that is kept as a cell (its address is never stored as a value) can change behind the back of the
+// function only through code that got hold of its address: a call the address was passed to, or a closure that captured it
+// and is itself handed to other code. A closure that is only deferred or called directly by the function itself is executed
+// by the executor with the binding - it gives unknown code no access.
+func cellReachableByUnknownCode(a *ssa.Alloc) bool {
+	refs := a.Referrers()
+	if refs == nil {
+		return true
+	}
+	var addrUsed func(v ssa.Value, depth int) bool
+	addrUsed = func(v ssa.Value, depth int) bool {
+		rs := v.Referrers()
+		if rs == nil {
+			return true
+		}
+		for _, r := range *rs {
+			switch x := r.(type) {
+			case *ssa.UnOp, *ssa.DebugRef:
+			case *ssa.Store:
+				if x.Val == v {
+					return true
+				}
+			case *ssa.FieldAddr:
+				if depth > 4 || addrUsed(x, depth+1) {
+					return true
+				}
+			case *ssa.IndexAddr:
+				if depth > 4 || addrUsed(x, depth+1) {
+					return true
+				}
+			case *ssa.MakeClosure:
+				mrs := x.Referrers()
+				if mrs == nil {
+					return true
+				}
+				for _, mr := range *mrs {
+					switch y := mr.(type) {
+					case *ssa.Defer:
+						if y.Call.Value != ssa.Value(x) {
+							return true // the closure is an ARGUMENT of the deferred call
+						}
+					case *ssa.Call:
+						if y.Call.Value != ssa.Value(x) {
+							return true
+						}
+					case *ssa.DebugRef:
+					default:
+						return true
+					}
+				}
+			default:
+				return true // passed to a call, sliced, converted, ...
+			}
+		}
+		return false
+	}
+	return addrUsed(a, 0)
 }
